@@ -91,7 +91,7 @@ def coq_make(targets, timeout=3000) -> BuildResult:
     """make the given .vo targets (full .vo build, never -vos).  Caller holds build_lock."""
     t0 = time.time()
     coq_project()
-    cmd = ["make", f"-j{NPROC}", "--no-print-directory"] + list(targets)
+    cmd = ["make", "-k", f"-j{NPROC}", "--no-print-directory"] + list(targets)
     try:
         p = sh(["timeout", str(timeout)] + cmd, cwd=COQ, timeout=timeout + 60)
     except subprocess.TimeoutExpired:
